@@ -80,6 +80,15 @@ func skeleton(body *ast.BlockStmt) []string {
 				}
 				if fn := src(x.Fun); !quiet(fn) {
 					tok := "call " + fn
+					// allocation and slice surgery: sizes, capacities and operands are part of the skeleton (a capacity that can
+					// go negative, an append into a shared backing array)
+					if fn == "make" || fn == "append" || fn == "copy" || fn == "delete" {
+						var as []string
+						for _, a := range x.Args {
+							as = append(as, src(a))
+						}
+						tok += "(" + strings.Join(as, ", ") + ")"
+					}
 					// what is answered is part of the skeleton: status codes and header values
 					if strings.HasSuffix(fn, ".WriteHeader") || strings.HasSuffix(fn, ".Header().Set") || fn == "http.Error" {
 						var as []string
